@@ -19,8 +19,14 @@ RULE = ("E2 (correspondence): the shared online generator of harness/e2.py drive
         "changed. Inside Coq: the model reproduces every outcome and dump of the whole trace (revert_optional "
         "included), quiescent_success_b q = true (the bridge the theorems start from), dispatchable q = [], "
         "the no-change restart cycle of the model has the same dump, and dispatch_guard holds in the "
-        "pre-state of every step the real scheduler dispatched. A case is non-trivial when it reaches q; "
-        "distinct by the dump of q. "
+        "pre-state of every step the real scheduler dispatched. After the edit the rebuild continues with the "
+        "real scheduler and the transactions of executor and director (checks that skip or not, reruns, "
+        "declare_static / define_step (new, changed, recycled) / amend_step by running steps, successes, failures, "
+        "deferrals, confirmations): inside Coq the whole rebuild satisfies the hypotheses of "
+        "C04_cone_invariant_partial2 (cone_ops2_first_bad = None; the two delimiting clauses are counted when "
+        "they fail, a protocol clause that fails is a failure); on the real dumps every dispatched step, every "
+        "step whose state changed and every newly attached node is in the cone computed independently in "
+        "Python. A case is non-trivial when it reaches q; distinct by the dump of q. "
         "E3 (oracle, the property itself): generated projects and histories (harness/e3_gen.py) on the real "
         "serve() with simulated commands, restart and watch flavour; after every build with return code 0: a "
         "rebuild with nothing changed and one after same-content rewrites of sources must execute no command, "
@@ -62,7 +68,7 @@ ASSUMPTIONS = [
 
 SETTINGS = {
     # tier: (E2 cases, E3 restart cases, E3 watch cases, max_phases, processes)
-    "quick": (20, 60, 60, 3, 4),
+    "quick": (28, 60, 60, 3, 4),
     "thorough": (120, 1200, 1200, 5, 8),
 }
 NGLOB_CASES = {"quick": 40, "thorough": 600}
@@ -170,6 +176,111 @@ def _check_e2_edit(ctx, i, trace, marks):
                         witness={"ops": [list(map(str, t[:2])) for t in trace], "edited": [p for p, _ in hs]})
 
 
+CONE2_REASONS = {1: "transaction-outside-the-covered-alphabet", 2: "external-paths-not-edited-static-sources",
+                 3: "hash-update-path-or-its-creator-outside-the-cone", 4: "step-outside-the-cone-marked-pending",
+                 5: "dispatch-guard-false", 6: "idle-optional-step-outside-the-cone-dispatched",
+                 7: "job-not-in-flight", 8: "requesting-step-not-running",
+                 9: "orphaned-built-input-outside-the-cone-adopted"}
+# clauses that delimit the theorem (C04_cone_idle_optional_clause_needed; design.d/C04.md), as opposed to
+# protocol facts of the executor / director
+CONE2_EXCUSED = (6, 9)
+
+
+def _rebuild_parts(trace, marks):
+    n_edit, n_end = marks["rebuild"]
+    pre = [t for t in trace[:n_edit] if t[0][0] != "dispatch_error"]
+    ops = [t for t in trace[n_edit:n_end] if t[0][0] != "dispatch_error"]
+    edited = [p for p, _ in marks["edit"][0]]
+    return pre, ops, edited
+
+
+def _rebuild_term(trace, marks):
+    pre, ops, edited = _rebuild_parts(trace, marks)
+    opl = common.coq_list([c04_e2.cq_base_op(t[0]) for t in ops])
+    return (f"(let q := run_xops {c04_e2.cq_xops(pre)} (init_st 3) in "
+            f"cone_ops2_first_bad q {c04_e2.cq_strs(edited)} [] 0 [] q {opl})")
+
+
+def _py_cone_edges(dump, op):
+    """Edges the cone is closed under in one visited state (dump before the transaction) and for the
+    transaction itself: dependency rows, creator links, declarations."""
+    edges = set()
+    for a, b, _dy in dump["deps"]:
+        edges.add((tuple(a), tuple(b)))
+    for k, c, _det in dump["nodes"]:
+        if c is not None:
+            edges.add((tuple(c), tuple(k)))
+    n = op[0]
+    if n == "define_step":
+        _, c, l, _i, _e, o, v, _nd = op
+        edges.add((tuple(c), ("step", l)))
+        for f in tuple(o) + tuple(v):
+            edges.add((tuple(c), ("file", f)))
+    elif n == "declare_static":
+        for f in op[2]:
+            edges.add((tuple(op[1]), ("file", f)))
+    elif n == "amend_step":
+        _, l, _i, _e, o, v = op
+        for f in tuple(o) + tuple(v):
+            edges.add((("step", l), ("file", f)))
+    return edges
+
+
+def _py_closure(seeds, edges):
+    succ = {}
+    for a, b in edges:
+        succ.setdefault(a, set()).add(b)
+    seen, todo = set(seeds), list(seeds)
+    while todo:
+        k = todo.pop()
+        for x in succ.get(k, ()):
+            if x not in seen:
+                seen.add(x)
+                todo.append(x)
+    return seen
+
+
+def _check_e2_rebuild_oracle(ctx, i, trace, marks):
+    """On the REAL dumps of a rebuild whose transactions satisfy the hypotheses of C04_cone_invariant_partial2:
+    every dispatched step is in the cone of the history up to its dispatch; at the end every step whose state
+    differs from the quiescent state and every node that is attached now but was not is in the cone."""
+    n_edit, n_end = marks["rebuild"]
+    q = marks["edit"][1]
+    edited = [("file", p) for p, _ in marks["edit"][0]]
+    edges = set()
+    before = q
+    wit = {"case": i, "edited": [p for _, p in edited],
+           "ops": [list(map(str, t[:2])) for t in trace[:n_end] if t[0][0] != "dispatch_error"]}
+    ndisp = 0
+    for k in range(n_edit, n_end):
+        op, _oc, _detail, after = trace[k]
+        if op[0] == "dispatch_error":
+            continue
+        edges |= _py_cone_edges(before, op)
+        if op[0] == "dispatch":
+            ndisp += 1
+            cone = _py_closure(edited, edges)
+            if ("step", op[1]) not in cone:
+                ctx.add_failure("oracle", "E2:cone2", "oracle:e2:cone2:dispatched-outside-the-cone",
+                                f"case {i}: the real scheduler dispatched {op[1]!r} at transaction {k}, which is outside "
+                                f"the cone of {wit['edited']} over the history so far", witness=wit)
+                return
+        before = after
+    cone = _py_closure(edited, edges)
+    q_state = {r[0]: r[1] for r in q["steps"]}
+    q_att = {tuple(k): not det for k, _c, det in q["nodes"]}
+    end = before
+    changed = sorted(r[0] for r in end["steps"] if q_state.get(r[0]) != r[1] and ("step", r[0]) not in cone)
+    newly = sorted(tuple(k) for k, _c, det in end["nodes"]
+                   if not det and not q_att.get(tuple(k), False) and tuple(k) not in cone)
+    ctx.count("e2:rebuild_dispatches_in_cone", ndisp)
+    ctx.case(("e2cone2", i, ndisp, len(cone)), nontrivial=ndisp > 0)
+    if changed or newly:
+        ctx.add_failure("oracle", "E2:cone2", "oracle:e2:cone2:state-or-attachment-changed-outside-the-cone",
+                        f"case {i}: after the rebuild, steps outside the cone changed state: {changed}; nodes outside "
+                        f"the cone became attached: {newly}", witness=wit)
+
+
 def correspondence(ctx):
     n = SETTINGS[ctx.tier][0]
     t0 = time.time()
@@ -216,6 +327,12 @@ def correspondence(ctx):
                             "revert_optional_steps + delete_detached changed the stored workflow on a no-change rebuild",
                             witness={"ops": [list(map(str, t[:2])) for t in trace[:marks['q'] + 1]]})
         _check_e2_edit(ctx, i, trace, marks)
+        if "rebuild" in marks:
+            # the rebuild after the edit satisfies the hypotheses of C04_cone_invariant_partial2
+            checks.append(f"match {_rebuild_term(trace, marks)} with None => true | Some _ => false end")
+            names.append((i, "cone2", None))
+            ctx.count("e2:rebuilds")
+            ctx.count("e2:rebuild_transactions", marks["rebuild"][1] - marks["rebuild"][0])
         pre = [t for t in trace[:marks["q"]] if t[0][0] != "dispatch_error"]
         ops = c04_e2.cq_xops(pre)
         qterm = f"(run_xops {ops} (init_st 3))"
@@ -245,6 +362,35 @@ def correspondence(ctx):
     ctx.stats["e2_coq_s"] = round(time.time() - t0, 1)
     ctx.traces_validated += sum(1 for nm in names if nm[1] == "trace") - sum(1 for b in bad if names[b][1] == "trace")
     by_case = {i: c for i, _, c in cases}
+    # rebuilds: which hypothesis fails first (if any); the oracle on the real dumps for the others
+    bad_cone2 = [b for b in bad if names[b][1] == "cone2"]
+    bad = [b for b in bad if names[b][1] != "cone2"]
+    excused = set()
+    if bad_cone2:
+        vals = common.eval_terms(ctx, "e2cone2", c04_e2.HEADER,
+                                 [_rebuild_term(by_case[names[b][0]][0], by_case[names[b][0]][1]) for b in bad_cone2])
+        for b, v in zip(bad_cone2, vals):
+            i = names[b][0]
+            trace, marks = by_case[i][0], by_case[i][1]
+            m = re.search(r"Some\s*\((\d+)%?n?a?t?,\s*(\d+)", v or "")
+            idx, code = (int(m.group(1)), int(m.group(2))) if m else (None, None)
+            pre, ops, edited = _rebuild_parts(trace, marks)
+            if code in CONE2_EXCUSED:
+                excused.add(i)
+                ctx.count(f"e2:rebuild_outside_the_hypotheses:{CONE2_REASONS[code]}")
+                continue
+            opname = ops[idx][0][0] if idx is not None and idx < len(ops) else "?"
+            ctx.add_failure("correspondence", "E2:cone2",
+                            f"E2:cone2:protocol-clause-violated:{CONE2_REASONS.get(code, 'unparsed')}",
+                            f"case {i}: transaction {idx} ({opname}) of the rebuild after editing {edited} does not satisfy "
+                            f"its clause of cone_op2: {v}",
+                            witness={"case": i, "edited": edited, "index": idx,
+                                     "ops": [list(map(str, t[:2])) for t in pre + ops[: (idx or 0) + 1]]})
+            excused.add(i)
+    for i, _, (trace, marks, _disp, _opc, ok) in cases:
+        if ok and "rebuild" in marks and i not in excused:
+            ctx.count("e2:rebuilds_satisfying_the_hypotheses")
+            _check_e2_rebuild_oracle(ctx, i, trace, marks)
     for b in bad[:4]:
         i, what, extra = names[b]
         trace, marks = by_case[i][0], by_case[i][1]
@@ -374,8 +520,42 @@ def _run_nglob(ctx, n, tag="ng"):
     ctx.stats["nglob_s"] = round(ctx.stats.get("nglob_s", 0) + time.time() - t0, 1)
 
 
+def _run_fixed_witnesses(ctx):
+    """Finding C04-optional-upstream (Coq: C04_full_refuted): replayed on the real director on every run, both
+    flavours.  The failure is reported under its own precise signature once the coordinator has registered it
+    (KNOWN_FINDINGS.json); until then the outcome of the replay is recorded in the evidence only."""
+    sig = c04_e3.OPTIONAL_UPSTREAM_SIGNATURE
+    registered = any(k.get("property") == PID and sig in (k.get("signatures") or [k.get("signature")])
+                     for k in common.load_known())
+    for flavour in ("restart", "watch"):
+        res = c04_e3.run_optional_upstream(flavour)
+        ctx.count(f"e3:witness:optional-upstream:{flavour}:reproduced={res['reproduced']}")
+        ctx.case(("e3witness", "optional-upstream", flavour), nontrivial=True)
+        rep = res["report"]
+        for f in res["other"][:1]:
+            ctx.add_failure("oracle", "E3:witness", f["signature"], f"fixed witness optional-upstream ({flavour}): "
+                            + f["detail"][:400], witness={"item": c04_e3.optional_upstream_item(flavour)})
+        if rep.get("timeout"):
+            ctx.notes.append(f"fixed witness optional-upstream ({flavour}) timed out: {rep['timeout'][:200]}")
+        elif res["reproduced"] and registered:
+            ctx.add_failure("oracle", "E3:witness", sig,
+                            f"({flavour}) an idle OPTIONAL step declared by plan.py is executed after editing the script "
+                            f"of another plan that now consumes its output; no clause of the property justifies it",
+                            witness={"item": c04_e3.optional_upstream_item(flavour),
+                                     "project": rep["project"], "history": rep["history"],
+                                     "cone_edits": rep.get("cone_edits"), "cone_schedule": None,
+                                     "failure": {"signature": sig}})
+        elif res["reproduced"]:
+            ctx.notes.append(f"finding C04-optional-upstream reproduces on the real director ({flavour}); not yet "
+                             f"registered in KNOWN_FINDINGS.json under {sig}")
+        else:
+            ctx.notes.append(f"finding C04-optional-upstream does NOT reproduce any more ({flavour}): the code or the "
+                             f"property changed; C04_full_refuted and design.d/C04.md need a revision")
+
+
 def oracle(ctx):
     _run_nglob(ctx, NGLOB_CASES[ctx.tier])
+    _run_fixed_witnesses(ctx)
     _run_e3(ctx, _e3_items(ctx))
 
 
